@@ -3,7 +3,7 @@
 use super::{CheckpointMetadata, WalManager, WalRecord};
 use grafeo_common::utils::error::{Error, Result, StorageError};
 use std::fs::File;
-use std::io::{BufReader, Read};
+use std::io::{BufReader, Read, Seek};
 use std::path::Path;
 
 /// Name of the checkpoint metadata file.
@@ -174,6 +174,61 @@ impl WalRecovery {
         // Uncommitted records in current_tx_records are discarded
 
         Ok(committed_records)
+    }
+
+    /// Makes the log safe to append to after [`recover`](Self::recover).
+    ///
+    /// Recovery stops at the first torn or corrupt record. Whatever follows that point
+    /// can never be read again, so appending behind it would make every later write
+    /// unrecoverable. This cuts the damaged file back to its last good record and removes
+    /// the log files after it. It is a no-op on an undamaged log.
+    ///
+    /// # Errors
+    ///
+    /// Returns an error if a log file cannot be read, truncated or removed.
+    pub fn repair(&self) -> Result<()> {
+        let min_sequence = self
+            .read_checkpoint_metadata()?
+            .map_or(0, |cp| cp.log_sequence);
+        let log_files = self.get_log_files()?;
+        let mut damaged_at: Option<usize> = None;
+
+        for (idx, log_file) in log_files.iter().enumerate() {
+            let sequence = Self::sequence_from_path(log_file).unwrap_or(0);
+            if sequence < min_sequence {
+                continue;
+            }
+            let file = match File::open(log_file) {
+                Ok(f) => f,
+                Err(e) if e.kind() == std::io::ErrorKind::NotFound => continue,
+                Err(e) => return Err(e.into()),
+            };
+            let file_len = file.metadata()?.len();
+            let mut reader = BufReader::new(file);
+            let mut good_len = 0u64;
+            let clean = loop {
+                match self.read_record(&mut reader) {
+                    Ok(Some(_)) => good_len = reader.stream_position()?,
+                    Ok(None) => break good_len == file_len,
+                    Err(_) => break false,
+                }
+            };
+            if !clean {
+                drop(reader);
+                let f = std::fs::OpenOptions::new().write(true).open(log_file)?;
+                f.set_len(good_len)?;
+                f.sync_all()?;
+                damaged_at = Some(idx);
+                break;
+            }
+        }
+
+        if let Some(idx) = damaged_at {
+            for later in &log_files[idx + 1..] {
+                std::fs::remove_file(later)?;
+            }
+        }
+        Ok(())
     }
 
     /// Extracts the sequence number from a WAL log file path.
